@@ -201,7 +201,7 @@ func checkC04(c *Ctx, r *Report) {
 	}
 
 	// ---- F10 ----
-	nh := 0
+	nh, nsz := 0, 0
 	for _, pk := range c.Packagers {
 		if pk.Format == "rpm" || pk.Format == "" {
 			continue
@@ -246,9 +246,47 @@ func checkC04(c *Ctx, r *Report) {
 			}
 			whys = uniqStrings(whys)
 			r.Check(ok, "F10", construct, c.instrPos(h.Create), strings.Join(whys, "; "))
+
+			// F10-size: a member of a header-only class (directory, link,
+			// device, fifo) is followed by no data blocks, so its size field
+			// must be zero: a reader that honours the field skips that many
+			// bytes of the following members. Decided per combination of
+			// Typeflag and Size definitions that can hold together at a use.
+			if !h.FromFileInfo {
+				nsz++
+				okS := true
+				var whyS []string
+				for _, use := range h.Uses {
+					for _, p := range h.reachingPairs("Typeflag", "Size", use) {
+						cls := typeflagClass(p.A)
+						if p.B == nil {
+							continue
+						}
+						if k, isK := p.B.Val.(*ssa.Const); isK && k.Value != nil && k.Int64() == 0 {
+							continue
+						}
+						if cls == "FILE" {
+							whyS = append(whyS, "size set for a regular member")
+							continue
+						}
+						okS = false
+						tf := "a non-constant Typeflag"
+						if p.A != nil {
+							tf = "the Typeflag set at " + c.instrPos(p.A)
+						}
+						whyS = append(whyS, fmt.Sprintf("at %s the size set at %s (%s) can hold together with %s (class %s): a header-only member would announce data that is not written", c.instrPos(use), c.instrPos(p.B), valueExpr(c, p.B.Val, 0), tf, cls))
+					}
+				}
+				whyS = uniqStrings(whyS)
+				if len(whyS) == 0 {
+					whyS = []string{"size is never set: zero"}
+				}
+				r.Check(okS, "F10-size", pk.Format+": size of "+h.key(c), c.instrPos(h.Create), strings.Join(whyS, "; "))
+			}
 		}
 	}
 	r.Floor("F10", nh, 15)
+	r.Floor("F10-size", nsz, 12)
 
 	// ---- O4 (shared with C06) and plan rules (shared with C05) ----
 	tmp := newReport("tmp")
@@ -267,7 +305,7 @@ func checkC04(c *Ctx, r *Report) {
 	n5 := 0
 	for _, o := range tmp5.Obls {
 		switch o.Rule {
-		case "K2", "K2b", "K3", "O5-parents", "O5-sort", "D6":
+		case "K2", "K2b", "K3", "O5-parents", "O5-sort", "D6", "G-base", "G-prefix":
 			o.Rule = "plan-" + o.Rule
 			r.Obls = append(r.Obls, o)
 			n5++
@@ -397,6 +435,7 @@ func checkAPKStructure(c *Ctx, r *Report) {
 	})
 	r.Check(twClose != nil && firstFlush != nil && instrDominates(firstFlush, twClose), "O3", "apk: buffered data flushed before the tar is closed", c.pos(wt.Pos()), "Flush must precede tar.Writer.Close so that only the end-of-archive marker remains buffered")
 	r.Check(bufSize >= 1024, "O3", "apk: buffer holds back the end-of-archive marker", c.pos(wt.Pos()), fmt.Sprintf("buffer size %d; the 1024-byte tar trailer must fit so that cut segments can drop it", bufSize))
+	checkApkAlign(c, r, wt)
 	var fullConst int64 = -1
 	var kindParam *ssa.Parameter
 	for _, fl := range flushes {
